@@ -1,6 +1,7 @@
 // LD_PRELOAD interposer: counts the mutating file-system calls made under SHIM_PREFIX once
 // SHIM_ARMED is set, and at index SHIM_CUT kills the process (before performing the call), or at
 // index SHIM_FAIL makes that one call fail with EIO. SHIM_LOG=1 prints every counted call.
+// A callback registered through shim_register_fs_callback sees every mutating call with its full path (lock-discipline monitor; no environment needed).
 // With SHIM_READS=1 the opens for reading of state.json / patches_state.json / dlc.vmcode are counted (and faulted) as well.
 #define _GNU_SOURCE
 #include <dlfcn.h>
@@ -16,6 +17,14 @@
 static int counter = 0;
 static int armed = 0;
 static int tracked_fd[4096];
+
+// lock-discipline observer: the harness registers a callback that is told of every mutating call (armed or
+// not, any path); it decides whether the calling thread may touch that path now
+static void (*fs_cb)(const char *, const char *) = 0;
+void shim_register_fs_callback(void (*f)(const char *, const char *)) { fs_cb = f; }
+static void seen(const char *what, const char *path) {
+  if (fs_cb && path) fs_cb(what, path);
+}
 
 static int envint(const char *n) { const char *s = getenv(n); return s ? atoi(s) : -1; }
 
@@ -59,6 +68,7 @@ static const char *fullpath(int dirfd, const char *p, char *buf) {
   if (flags & (O_CREAT | O_TMPFILE)) { va_list a; va_start(a, flags); m = va_arg(a, int); va_end(a); } \
   char buf[4200];                                                                     \
   int t = 0;                                                                          \
+  if ((flags & O_CREAT) || (flags & O_TRUNC) || (flags & O_ACCMODE) != O_RDONLY) seen("open-w", HASDIR ? fullpath(dirfd, path, buf) : path); \
   if ((flags & O_CREAT) || (flags & O_TRUNC)) t = hit("create-trunc", HASDIR ? fullpath(dirfd, path, buf) : path); \
   else if (getenv("SHIM_READS") && (flags & O_ACCMODE) == O_RDONLY && !(flags & O_DIRECTORY) && is_data_file(path)) { \
     t = hit("read-open", HASDIR ? fullpath(dirfd, path, buf) : path); if (t == 1) t = 0; } \
@@ -111,6 +121,7 @@ int close(int fd) {
 int rename(const char *a, const char *b) {
   static int (*real)(const char *, const char *) = 0;
   if (!real) real = dlsym(RTLD_NEXT, "rename");
+  seen("rename", a); seen("rename", b);
   int t = hit("rename", b);
   if (t == 2) { errno = EIO; return -1; }
   return real(a, b);
@@ -120,6 +131,7 @@ int mkdir(const char *p, mode_t m) {
   if (!real) real = dlsym(RTLD_NEXT, "mkdir");
   struct stat st;
   if (stat(p, &st) != 0) {
+    seen("mkdir", p);
     int t = hit("mkdir", p);
     if (t == 2) { errno = EIO; return -1; }
   }
@@ -129,6 +141,7 @@ int unlinkat(int d, const char *p, int f) {
   static int (*real)(int, const char *, int) = 0;
   if (!real) real = dlsym(RTLD_NEXT, "unlinkat");
   char buf[4200];
+  seen(f ? "rmdir" : "unlink", fullpath(d, p, buf));
   int t = hit(f ? "rmdir" : "unlink", fullpath(d, p, buf));
   if (t == 2) { errno = EIO; return -1; }
   return real(d, p, f);
@@ -136,6 +149,7 @@ int unlinkat(int d, const char *p, int f) {
 int unlink(const char *p) {
   static int (*real)(const char *) = 0;
   if (!real) real = dlsym(RTLD_NEXT, "unlink");
+  seen("unlink", p);
   int t = hit("unlink", p);
   if (t == 2) { errno = EIO; return -1; }
   return real(p);
@@ -143,6 +157,7 @@ int unlink(const char *p) {
 int rmdir(const char *p) {
   static int (*real)(const char *) = 0;
   if (!real) real = dlsym(RTLD_NEXT, "rmdir");
+  seen("rmdir", p);
   int t = hit("rmdir", p);
   if (t == 2) { errno = EIO; return -1; }
   return real(p);
